@@ -35,6 +35,18 @@ fn generate_char_fn_ranges(f: fn(char) -> bool) -> Vec<(u32, u32)> {
     ranges
 }
 
+/// Entry point for external verification tooling: the table generator, applied to `f`.
+#[cfg(lexgen_verif)]
+pub fn verif_generate(f: fn(char) -> bool) -> Vec<(u32, u32)> {
+    generate_char_fn_ranges(f)
+}
+
+/// The predicates the built-in tables are generated from, with their table names.
+#[cfg(lexgen_verif)]
+pub fn verif_predicates() -> &'static [(fn(char) -> bool, &'static str)] {
+    &FNS
+}
+
 macro_rules! ascii_fn {
     ($x:ident) => {
         fn $x(c: char) -> bool {
